@@ -100,11 +100,13 @@ def outcome(fut):
 
 def run_download(kind, size, thr, chunk, io, nd=(), stream_faults=(), attempts=3, short_reads=False,
                  fault_at=-1, fault_phase=0, faultable=None, prev=False, subs=2, provide_size=False,
-                 executor_cls=NonThreadedExecutor, extra_args=None, cfg_kw=None, before_wait=None, fault_at2=-1):
+                 executor_cls=NonThreadedExecutor, extra_args=None, cfg_kw=None, before_wait=None, fault_at2=-1,
+                 fault_cls=0):
     """one download through the real TransferManager; kind in seekable|stream|path|special"""
     c = Ctx()
     c.transfer = 'down-' + kind
     env = c.env = F.Env(fault_at, fault_phase, F.Nondet(nd), faultable, fault_at2=fault_at2)
+    env.fault_cls = fault_cls
     s3 = c.s3 = F.FakeS3(env, size=size, short_reads=short_reads, stream_faults=stream_faults)
     kw = dict(multipart_threshold=thr, multipart_chunksize=chunk, io_chunksize=io, num_download_attempts=attempts)
     kw.update(cfg_kw or {})
@@ -146,10 +148,11 @@ def dest_content_reason(c, kind, size):
 
 def run_upload(kind, size, thr, chunk, off=0, nd=(), body_reads=(), resend=0, preread=False,
                fault_at=-1, fault_phase=0, faultable=None, subs=1, short=False, known_size=False,
-               executor_cls=NonThreadedExecutor, extra_args=None, rcc='when_required', cfg_kw=None):
+               executor_cls=NonThreadedExecutor, extra_args=None, rcc='when_required', cfg_kw=None, fault_cls=0):
     """one upload; kind in path|seekable|nonseekable.  `off` = start offset of a seekable stream."""
     c = Ctx()
     env = c.env = F.Env(fault_at, fault_phase, F.Nondet(nd), faultable)
+    env.fault_cls = fault_cls
     s3 = c.s3 = F.FakeS3(env, rcc=rcc, body_reads=body_reads, resend=resend, preread=preread)
     kw = dict(multipart_threshold=thr, multipart_chunksize=chunk)
     kw.update(cfg_kw or {})
@@ -174,9 +177,10 @@ def run_upload(kind, size, thr, chunk, off=0, nd=(), body_reads=(), resend=0, pr
 
 
 def run_copy(size, thr, chunk, fault_at=-1, fault_phase=0, faultable=None, subs=1, provide_size=False,
-             executor_cls=NonThreadedExecutor, extra_args=None, rcc='when_required', cfg_kw=None):
+             executor_cls=NonThreadedExecutor, extra_args=None, rcc='when_required', cfg_kw=None, fault_cls=0):
     c = Ctx()
     env = c.env = F.Env(fault_at, fault_phase, None, faultable)
+    env.fault_cls = fault_cls
     s3 = c.s3 = F.FakeS3(env, size=size, rcc=rcc)
     kw = dict(multipart_threshold=thr, multipart_chunksize=chunk)
     kw.update(cfg_kw or {})
